@@ -298,7 +298,10 @@ class FunctorPool:
                     p.join(timeout=0.1)
         else:
             for _ in range(len(self.procs)):
-                self._work_queue.put(None)
+                try:
+                    self._work_queue.put(None, timeout=self.join_timeout)
+                except queue.Full:
+                    pass  # nobody takes the stop orders: the remaining workers have finished already (see above)
         for p in self.procs:
             if p.exitcode is None:
                 p.join(timeout=self.join_timeout)
